@@ -58,7 +58,7 @@ class InspectionStation(QueuedResource):
             raise ValueError(f"pass_rate must be between 0 and 1, got {pass_rate}")
         if inspection_time < 0:
             raise ValueError(f"inspection_time must be >= 0, got {inspection_time}")
-        super().__init__(name, policy=policy or FIFOQueue())
+        super().__init__(name, policy=policy if policy is not None else FIFOQueue())
         self.pass_target = pass_target
         self.fail_target = fail_target
         self.inspection_time = inspection_time
